@@ -18,8 +18,34 @@ RULES = {
 
 
 def run(tier, seed):
-    return poplayout_check.run(PROP, tier, seed, [], RULES[PROP])
+    def extra(v, cov):
+        """individual level: the shared LogLik run (see check_c01) judged on the gradient clauses"""
+        from . import loglik_run
+        out = loglik_run.run(tier, seed)
+        for fails, cnt in out['results']:
+            v.failures([f for f in fails if f['clause'] in loglik_run.C03_CLAUSES])
+            v.merge_counters({'loglik_' + k: n for k, n in cnt.items()})
+        cov['tlc_runs'] = cov['tlc_runs'] + out['runs']
+        cov['states'] += sum(r['states'] for r in out['runs'])
+        cov['transitions'] += sum(r['transitions'] for r in out['runs'])
+        cov['traces_validated_against_impl'] += out['n']
+        cov['rule'] += ('; plus every configuration of module LogLik (individual likelihoods, all error kinds) judged on '
+                        'GradIsDecl / SensSwitch / FiniteAgree; FiniteAgree = at points with one parameter set to 0 or a '
+                        'negative number evaluateS1 reports a finite score iff plain evaluation does, and the same one')
+    return poplayout_check.run(PROP, tier, seed, [], RULES[PROP], extra=extra)
 
 
 def replay(path):
+    import json
+    rep = json.load(open(path))
+    if 'grid' in rep['case']['config']:
+        from . import replay_loglik, loglik_run
+        fails, _ = replay_loglik.replay_case((rep['case']['config'], rep['seed']))
+        for f in fails:
+            if f['clause'] in loglik_run.C03_CLAUSES:
+                print('VIOLATION property=%s replay=%s' % (PROP, path))
+                print('  clause=%s manifestation=%s detail=%s' % (f['clause'], f['manifestation'], str(f['detail'])[:400]))
+                return 1
+        print('replay passes')
+        return 0
     return poplayout_check.replay(PROP, path)
